@@ -281,3 +281,64 @@ def spec_verify_arg_t(fns, consts):
 
 
 SPECS["C04"] = [spec_typed_remove, spec_verify_arg_t]
+
+
+# ------------------------------------------------------------------ C06: fixed phase order
+
+def spec_phase_order(fns, consts):
+    """Parser::get_matches_with and its error-recovery closure: on every path, values come from the
+    command line first (parse, resolve_pending), then the environment (add_env), then defaults
+    (add_defaults), and validation runs last.  Decided on call traces of the loop-free bodies; a path
+    with a wrong order must be infeasible."""
+    con = contracts.Contracts(fns, default_pure=True)
+    ctx = symex.Ctx(consts, con)
+    main = _find(fns, "parser/parser.rs", "get_matches_with")
+    clo = _find(fns, "parser/parser.rs", "get_matches_with::{closure#0}")
+    obs, enc = [], []
+    order = ["parse", "resolve_pending", "add_env", "add_defaults", "validate"]
+
+    def idx(calls, name):
+        return [i for i, c in enumerate(calls) if re.search(r"(Parser::<'_>|Validator::<'_>)::" + name + r"$", c)]
+
+    ex = symex.Exec(ctx, main, [("opq", "self"), ("opq", "matcher"), ("opq", "raw_args"), ("opq", "cursor")]).run()
+    full = 0
+    for (pc, val), calls in zip(ex.returns, ex.return_calls):
+        pos = [idx(calls, n) for n in order]
+        ok = True
+        # each phase at most once, and in the fixed order; a later phase never without the earlier ones
+        last = -1
+        seen_gap = False
+        for p in pos:
+            if len(p) > 1:
+                ok = False
+            if p:
+                if seen_gap or p[0] < last:
+                    ok = False
+                last = p[0]
+            else:
+                seen_gap = True
+        if all(pos):
+            full += 1
+        obs.append({"fn": main.name, "block": "ret", "kind": "spec", "target": "phase_order",
+                    "msg": "phases run in the order parse, resolve_pending, add_env, add_defaults, validate (prefix-closed)", "pc": list(pc), "neg": "false" if ok else "true"})
+    if full == 0:
+        raise Unsupported("get_matches_with: no path runs all five phases")
+    enc.append(_enc(main, ex, len(ex.returns)))
+    ex2 = symex.Exec(ctx, clo, [("opq", "closure_env"), ("opq", "err")]).run()
+    both = 0
+    for (pc, val), calls in zip(ex2.returns, ex2.return_calls):
+        e, d = idx(calls, "add_env"), idx(calls, "add_defaults")
+        ok = (not d) or (len(e) == 1 and len(d) == 1 and e[0] < d[0])
+        both += bool(e and d)
+        obs.append({"fn": clo.name, "block": "ret", "kind": "spec", "target": "phase_order",
+                    "msg": "error-ignoring recovery: environment is applied before defaults", "pc": list(pc), "neg": "false" if ok else "true"})
+    if both == 0:
+        raise Unsupported("get_matches_with closure: recovery path with env and defaults not found")
+    enc.append(_enc(clo, ex2, len(ex2.returns)))
+    obs += ex.obligations + ex2.obligations
+    for o in obs:
+        o.setdefault("target", "phase_order")
+    return ctx, obs, enc, con
+
+
+SPECS["C06"] = [spec_phase_order]
